@@ -186,5 +186,73 @@ func runDirected(res *core.CaseResult, c core.CaseDesc) {
 				"NewStateCtx(%s) asked after the running transition had applied its target (tick %d) was canceled although the tick is still %d "+
 					"(it got the cached context of the previous instance)", st, tickAtCall, m.Tick(st)), nil)
 		}
+	case 11, 12, 13: // When / WhenNot on two states subscribed while a transition that changes one of them is being finished
+		// 11: at tx.applied, 12: at pq.before-subs, 13: from the End handler of the state that goes
+		m := mk(am.Schema{"A": {}, "B": {}, "C": {}})
+		m.Add(am.S{"A", "B"}, nil)
+		var notAB, whenAC <-chan struct{}
+		subscribe := func() {
+			notAB = m.WhenNot(am.S{"A", "B"}, nil) // B stays active: must stay open
+			whenAC = m.When(am.S{"B", "C"}, nil)   // C stays inactive: must stay open
+		}
+		am.VerifHookClear()
+		defer am.VerifHookClear()
+		gate := make(chan struct{})
+		reached := make(chan struct{})
+		var once sync.Once
+		park := func() {
+			once.Do(func() {
+				close(reached)
+				select {
+				case <-gate:
+				case <-time.After(20 * time.Second):
+				}
+			})
+		}
+		switch c.Seed {
+		case 11:
+			am.VerifHookSet("tx.applied", park)
+		case 12:
+			am.VerifHookSet("pq.before-subs", park)
+		case 13:
+			_, _ = m.HandlersBindMaps(nil, map[string]am.HandlerFinal{"AEnd": func(*am.Event) { subscribe() }})
+		}
+		done := make(chan struct{})
+		go func() { m.Remove1("A", nil); close(done) }()
+		if c.Seed != 13 {
+			select {
+			case <-reached:
+			case <-time.After(10 * time.Second):
+				res.Inconclusive = "gate not reached"
+				close(gate)
+				return
+			}
+			subscribe()
+			close(gate)
+		}
+		<-done
+		<-m.WhenQueueEnds()
+		if notAB == nil {
+			res.Inconclusive = "no subscription was made"
+			return
+		}
+		where := []string{"at tx.applied", "at pq.before-subs", "from the AEnd handler"}[c.Seed-11]
+		if isClosed(notAB) {
+			res.Violate("C06/spurious/whennot/subscribed-while-transition-finishes", fmt.Sprintf(
+				"WhenNot[A B] subscribed %s of Remove1(A) closed although B is still active (active %v)", where, m.ActiveStates(nil)), nil)
+		}
+		if isClosed(whenAC) {
+			res.Violate("C06/spurious/when/subscribed-while-transition-finishes", fmt.Sprintf(
+				"When[B C] subscribed %s of Remove1(A) closed although C is inactive (active %v)", where, m.ActiveStates(nil)), nil)
+		}
+		// and they still work
+		m.Remove1("B", nil)
+		m.Add(am.S{"B", "C"}, nil)
+		if !isClosed(notAB) {
+			res.Violate("C06/lost/whennot/subscribed-while-transition-finishes", "WhenNot[A B] is still open after B was removed too", nil)
+		}
+		if !isClosed(whenAC) {
+			res.Violate("C06/lost/when/subscribed-while-transition-finishes", "When[B C] is still open after B and C were added", nil)
+		}
 	}
 }
